@@ -468,8 +468,114 @@ func simTLSConfig() *tls.Config {
 	return &tls.Config{Certificates: []tls.Certificate{*tlsCertCache}, MinVersion: tls.VersionTLS13}
 }
 
+// regFlap: the server accepts the connection and hangs up at once; a
+// DISCONNECTED handler reconnects immediately (the documented way to
+// reconnect).  The second connection must open with exactly its own
+// registration.  The first Connect may still be dispatching REGISTER when the
+// handler has already reconnected.
+func regFlap(e *Env, g G) {
+	nick := "flap" + g.Str(lower, 1, 3)
+	pass := []string{"", "pw" + g.Str(alnum, 1, 6)}[g.Intn(2)]
+	capNeg, track := g.Bool(), g.Bool()
+	cfg := client.NewConfig(nick, "ident", "Real Name")
+	cfg.Pass = pass
+	cfg.EnableCapabilityNegotiation = capNeg
+	cfg.Server = "irc.sim"
+	cfg.Proxy = "sim://p"
+	cfg.Flood = true
+	cfg.PingFreq = 0
+	c := client.Client(cfg)
+	if track {
+		c.EnableStateTracking()
+	}
+	var wantReg []string
+	if capNeg {
+		wantReg = append(wantReg, "CAP LS")
+	}
+	if pass != "" {
+		wantReg = append(wantReg, "PASS "+pass)
+	}
+	wantReg = append(wantReg, "NICK "+nick, "USER ident 12 * :Real Name")
+	e.Notef("flapping server: pass=%v capneg=%v track=%v", pass != "", capNeg, track)
+	e.S.Count("fault.server-hangs-up-at-accept-then-reconnect-from-handler")
+	var links []*simnet.Link
+	e.LinkPlan = func(l *simnet.Link) { l.ChunkMode = g.Intn(4) }
+	e.OnDial = func(l *simnet.Link) {
+		links = append(links, l)
+		if len(links) == 1 {
+			e.S.Spawn("flapper", func() {
+				for k := e.S.Choose(3) * e.S.Choose(40); k > 0; k-- {
+					simrt.Sleep(0)
+				}
+				l.CloseByServer()
+			})
+		}
+	}
+	reconnected, handlerDone := false, false
+	var err2 error
+	c.HandleFunc(client.DISCONNECTED, func(*client.Conn, *client.Line) {
+		if reconnected {
+			return
+		}
+		reconnected = true
+		err2 = c.Connect()
+		handlerDone = true
+	})
+	connectReturned := false
+	e.S.Spawn("connector", func() {
+		c.Connect()
+		connectReturned = true
+	})
+	if !simrt.BlockFor("flap", "the first Connect and the reconnecting DISCONNECTED handler to return", time.Hour, func() bool { return handlerDone && connectReturned }) {
+		e.Violation("flap-stuck", "the server hung up right after accepting; first Connect returned=%v, DISCONNECTED handler (which reconnects) returned=%v\n%s", connectReturned, handlerDone, e.S.TaskDump())
+		return
+	}
+	if err2 != nil || len(links) != 2 {
+		e.Violation("flap-reconnect", "Connect from the DISCONNECTED handler returned %v after %d dials", err2, len(links))
+		return
+	}
+	simrt.Settle(30 * time.Second)
+	var got []string
+	for {
+		ln, ok := links[1].TryRecvLine()
+		if !ok {
+			break
+		}
+		got = append(got, strings.TrimRight(ln, "\r\n"))
+	}
+	e.Check()
+	if strings.Join(got, "\n") != strings.Join(wantReg, "\n") {
+		// is it the second connection's own registration plus lines of the
+		// first Connect's REGISTER dispatch, and nothing else?
+		isReg := map[string]bool{}
+		for _, w := range wantReg {
+			isReg[w] = true
+		}
+		k, onlyReg := 0, true
+		for _, ln := range got {
+			if k < len(wantReg) && ln == wantReg[k] {
+				k++
+			}
+			if !isReg[ln] {
+				onlyReg = false
+			}
+		}
+		if onlyReg && k == len(wantReg) && len(got) > len(wantReg) {
+			e.Violation("registration-lines-of-the-dead-connection", "the server hung up right after accepting and a DISCONNECTED handler reconnected at once: the second connection opened with %q, want exactly %q (the extra lines were sent by the REGISTER handler of the first Connect, which was still running)", got, wantReg)
+			return
+		}
+		e.Violation("registration-lines", "the server hung up right after accepting and a DISCONNECTED handler reconnected at once: the second connection opened with %q, want exactly %q", got, wantReg)
+		return
+	}
+	c.Close()
+}
+
 func regRun(e *Env) {
 	g := G{e.S}
+	if g.Pct(12) {
+		regFlap(e, g)
+		return
+	}
 	nick := g.Str(alnum[:52], 1, 9)
 	ident := []string{"", "ident", "a"}[g.Intn(3)]
 	name := []string{"", "Real Name", "x", "name with : colon"}[g.Intn(4)]
@@ -1143,6 +1249,16 @@ func capRun(e *Env) {
 				l.SendLine(":irc.sim CAP me ACK :-" + cp)
 				enabled[cp] = false
 				e.S.Count("probe.later-ack-disables-capability")
+				if g.S.Choose(2) == 0 {
+					// ... and enables it again, alone or along with what is held anyway
+					again := cp
+					if g.S.Choose(2) == 0 {
+						again = strings.Join(inter, " ")
+					}
+					l.SendLine(":irc.sim CAP me ACK :" + again)
+					enabled[cp] = true
+					e.S.Count("probe.later-ack-enables-capability-again")
+				}
 			}
 			simrt.Settle(20 * time.Second)
 			for l.HasLine() {
@@ -1320,9 +1436,18 @@ func logRun(e *Env) {
 	cycles := g.W(5, 2, 2, 1)
 	for k := 0; k < cycles; k++ {
 		simrt.Settle(time.Duration(g.Intn(4)) * time.Second)
-		for i := g.Intn(14); i > 0 && c.Connected(); i-- {
-			c.Privmsg("#c", "traffic before the next connection")
-		}
+		// the traffic comes from a task of its own: a sender that races a
+		// disconnect may block for good on the dead connection's queue (a send
+		// after the end of a connection is outside every claim here)
+		talkDone := false
+		nTalk := g.Intn(14)
+		e.S.Spawn(fmt.Sprintf("talker%d", k), func() {
+			for i := nTalk; i > 0 && c.Connected(); i-- {
+				c.Privmsg("#c", "traffic before the next connection")
+			}
+			talkDone = true
+		})
+		simrt.BlockFor("log", "traffic handed over", 5*time.Minute, func() bool { return talkDone })
 		simrt.Settle(time.Duration(g.Intn(3)) * time.Second)
 		c.Close()
 		e.S.Count("fault.reconnect-with-password")
